@@ -1226,3 +1226,33 @@ package runtime
 //@   modifies everything()
 //@   exits any
 //@   ensures slotsOK(result0) && result0.nArgs == 0 && len(result0.args) == old(f.nArgs) && result0.GoFunction == f
+
+// ---------------------------------------------------------------------------
+// C01 (kernel): the push / receive protocol of Lua continuations
+// ---------------------------------------------------------------------------
+// A value pushed to a Lua continuation is consumed by the receive instruction
+// at pc: a plain receive stores it in the destination register and advances,
+// an open-ended receive (`...`, open result lists) appends it to the
+// accumulator and stays.  When the continuation hands control to another one
+// (call), the accumulator is dropped, not truncated: the slice that
+// ReceiveEtc stored in a register (without copying) must never be appended
+// into again, or a later open-ended list would overwrite `...` in place.
+//@ fragment vm_call of (*LuaCont).RunInThread at switch opcode.GetJ()/case code.OpCall
+//@   prop C01
+//@   arith int
+//@   norte
+//@   nocover
+//@   modifies everything()
+//@   exits any
+//@   requires c != nil && t != nil && t.Runtime != nil && pc < 32767
+//@   assert_before_call clearReg: len(c.acc) == 0 && cap(c.acc) == 0 && c.pc == pc + 1 && !c.running   // (pc: the value on entry)
+
+//@ func (*LuaCont).Push
+//@   prop C01
+//@   arith int
+//@   norte
+//@   nocover
+//@   requires c != nil && r != nil
+//@   modifies everything()
+//@   exits any
+//@   assert_before_call setReg: c.pc == old(c.pc) + 1 && $reg == old(c.code[c.pc]).GetA() && $val == val && !old(c.code[c.pc]).GetF()
